@@ -12,6 +12,7 @@
 from __future__ import annotations
 
 import itertools
+import json
 import random
 import re
 from collections import Counter
@@ -28,6 +29,7 @@ CLAUSE_PROP = {
     "RhsTerms": "C01", "Inv:RhsIsMassAction": "C01", "OneStatementPerEquation": "C01", "WrapperOnThermalRowOnly": "C01",
     "NoStrayTerms": "C01", "NoEnabledAction": "C01",
     "MalformedFex": "C01",
+    "BackendsAgreeAtRunTime": "C01", "JacobiansAgreeAtRunTime": "C02",
     "JacTerms": "C02", "Inv:JacIsDerivative": "C02", "JacobianReadsTheSameAbundancesAsTheRhs": "C02", "OmittedIsZero": "C02", "WrapperOnThermalCellsOnly": "C02", "MalformedJac": "C02",
     "TermsOnlyInRange": "C03", "CellsInRange": "C03", "NoCellAssignedTwice": "C03", "MacroNSPECIES": "C03", "MacroNEQUATIONS": "C03",
     "MacroNREACTIONS": "C03", "MacroThermal": "C03", "SubscriptsInBounds": "C03", "CsrComplete": "C03", "CsrWellFormed": "C03",
@@ -470,6 +472,63 @@ def bundled_cases() -> list[tuple[str, dict]]:
             ("rate12.umist", dict(filelist=str(data / "rate12.umist"), fileformats="umist"))]
 
 
+FIELD_VALUES = {"nH": 1.0e4, "Tgas": 80.0, "zeta": 1.3e-17, "Av": 1.5, "omega": 0.5, "G0": 1.0, "rG": 1.0e-5, "gdens": 1.0e-8, "sites": 1.0e15, "fr": 1.0,
+                "opt_thd": 1.0, "opt_crd": 1.0, "opt_uvd": 1.0, "opt_h2d": 1.0, "mu": 1.4, "gamma": 1.6666666666666667}
+
+
+def runtime_agreement(ctx: Ctx, rng: random.Random, cases: list, first_tid: int):
+    """compile the generated sources of the cvode-dense and the odeint back-end against the stand-ins and evaluate Fex / Jac at the same
+    states (shim/rhs_driver.cpp): the two must agree entry by entry.  -> traces for Trace_OdeGen (event Runtime)"""
+    import subprocess
+    from common import SHIM, compile_cpp
+    out = []
+    for q, (desc, net, tr_net, names) in enumerate(cases):
+        outs = {}
+        neq = None
+        net = build_network(desc)      # (re-installs the per-case heating / cooling tables the network's names refer to)
+        for solver, method, flags in (("cvode", "dense", []), ("odeint", "rosenbrock4", ["-DODEINT"])):
+            d = ctx.scratch / "rt_rhs" / f"{q}_{solver}"
+            render(net, solver, method, d)
+            fields = re.findall(r"^\s*(?:double|realtype)\s+(\w+)\s*;", creader.strip_comments((d / "include/naunet_data.h").read_text()), re.M)
+            (d / "include" / "set_fields.inc").write_text("".join(f"        data.{f} = {FIELD_VALUES.get(f, 1.5)!r};\n" for f in fields))
+            exe = ctx.scratch / f"rhsdrv_{q}_{solver}"
+            srcs = [p_ for p_ in sorted((d / "src").glob("*.cpp")) if p_.name != "naunet_renorm.cpp" and p_.name != "naunet.cpp"]
+            p = compile_cpp(srcs + [SHIM / "rhs_driver.cpp"], [SHIM / "include", d / "include"], exe, flags)
+            if p.returncode != 0:
+                outs = None
+                ctx.notes.append(f"run-time agreement: {solver} sources of {desc.get('origin')} network do not compile against the stand-in: {p.stderr[-200:]}")
+                break
+            macros = creader.parse_macros((d / "include/naunet_macros.h").read_text())
+            neq = macros["NEQUATIONS"]
+            if "states" not in outs:
+                sts = []
+                for _ in range(3):
+                    v = [rng.uniform(0.1, 5.0) for _ in range(neq)]
+                    if macros.get("THERMAL"):
+                        v[macros["IDX_TGAS"]] = rng.choice([35.0, 480.0, 7300.0])
+                    sts.append(v)
+                outs["states"] = sts
+                (ctx.scratch / f"rhs_states_{q}.txt").write_text("\n".join(" ".join(repr(x) for x in v) for v in sts) + "\n")
+            pr = subprocess.run([str(exe), str(ctx.scratch / f"rhs_states_{q}.txt")], capture_output=True, text=True, timeout=300)
+            if pr.returncode != 0:
+                raise MachineryError(f"rhs driver failed ({solver}): {pr.stderr[-300:]}")
+            rows = [json.loads(re.sub(r"-?\b(?:nan|inf)\b", "null", ln)) for ln in pr.stdout.splitlines() if ln.startswith("{")]
+            outs[solver] = rows
+        if not outs:
+            continue
+
+        def same(a, b):
+            return len(a) == len(b) and all((x is None and y is None) or (x is not None and y is not None and (x == y or abs(x - y) <= 1e-12 * max(abs(x), abs(y))))
+                                            for x, y in zip(a, b))
+        yd_same = all(same(a["ydot"], b["ydot"]) for a, b in zip(outs["cvode"], outs["odeint"]))
+        jc_same = all(same(a["jac"], b["jac"]) for a, b in zip(outs["cvode"], outs["odeint"]))
+        first = next(((i, a["ydot"], b["ydot"]) for i, (a, b) in enumerate(zip(outs["cvode"], outs["odeint"])) if not same(a["ydot"], b["ydot"])), None)
+        out.append({"tid": first_tid + len(out), "net": tr_net, "be": "runtime", "weights": [], "names": names, "mode": "runtime",
+                    "ev": [{"k": "Runtime", "ydot_same": bool(yd_same), "jac_same": bool(jc_same)}],
+                    "detail": json.dumps({"first_difference": first, "states": outs["states"]})[:1500]})
+    return out
+
+
 # ------------------------------------------------------------------------------------------ main
 
 def main(ctx: Ctx) -> int:
@@ -543,6 +602,7 @@ def main(ctx: Ctx) -> int:
                 pass
         cov.update(lifecycle.run(ctx, rng, lnets, pid))
     traces, meta = [], {}
+    rt_cases: list = []
     tid = 0
     malformed = 0
     # every 7th generated network is rendered TWICE with the same loader objects: first without its last reaction, then -- after
@@ -594,6 +654,11 @@ def main(ctx: Ctx) -> int:
                     ctx.violation(f"{pid}|{e.clause}|{tag}", e.msg, {"desc": {k: v for k, v in desc.items() if k != 'N'}})
                 continue
             observed = tr.pop("observed")
+            if pid in ("C01", "C02") and tag == "dense" and ci not in prebuilt and not desc.get("ode_modifier"):
+                thermal = bool(desc.get("cooling") or desc.get("cooling_user") or desc.get("heating_user"))
+                have_t = sum(1 for c in rt_cases if c[5])
+                if (thermal and have_t < (3 if ctx.quick else 20)) or (not thermal and ci % 9 == 0 and len(rt_cases) - have_t < (1 if ctx.quick else 8)):
+                    rt_cases.append((desc, net, tr["net"], tr["names"], ci, thermal))
             if pid != "C04":
                 traces.append(tr)
                 meta[tid] = (ci, tag)
@@ -615,6 +680,15 @@ def main(ctx: Ctx) -> int:
         if pid == "C03" and len({tuple(v[0]) for v in cellsets.values()}) > 1:
             ctx.violation("C03|BackendsAgree|cells", f"back-ends assign different Jacobian cells: { {k: len(v[0]) for k, v in cellsets.items()} }",
                           {"desc": {k: v for k, v in desc.items() if k != 'N'}})
+    if rt_cases:
+        rt = runtime_agreement(ctx, rng, [c[:4] for c in rt_cases], tid + 1)
+        for t2, c in zip(rt, rt_cases):      # (a case whose sources did not compile is dropped inside: align by order only when none was)
+            meta[t2["tid"]] = (c[4], "cvode-dense vs odeint at run time")
+        if len(rt) != len(rt_cases):
+            for t2 in rt:
+                meta[t2["tid"]] = (rt_cases[0][4], "cvode-dense vs odeint at run time")
+        traces += rt
+        cov["networks_compared_at_run_time"] = len(rt)
     v = validate_traces(ctx, "Trace_OdeGen.tla", "Trace_OdeGen.cfg", traces, "ode", chunk=600, timeout=3000)
     cov["traces_validated_against_impl"] = len(traces)
     cov["traces_accepted"] = v["accepted"]
